@@ -10,6 +10,9 @@ RULE = ("multi-line texts mixing all kinds of sensitive items; for each of the 1
         "in the order secrets, IP (IPv6 then IPv4), words, AS numbers, on the implementation and on the model; non-trivial = a subset with at least two features on a text where at least two of them change something")
 
 
+RESERVED = ["Seattle-core", "KAYAK1"]
+
+
 def chain(run, base, sub, lines):
     """apply the single-feature anonymizers one after another; returns output lines or 'RAISED'"""
     cur = list(lines)
@@ -19,7 +22,7 @@ def chain(run, base, sub, lines):
         kw = dict(base)
         flags = kw.pop("ipflag") if f == "a" else ("p" if f == "p" else "")
         kw.pop("ipflag", None)
-        c = textgen.pipe(cur, flags=flags, words=kw["words"] if f == "w" else None, asnums=kw["asnums"] if f == "n" else None,
+        c = textgen.pipe(cur, flags=flags, words=kw["words"] if f == "w" else None, asnums=kw["asnums"] if f == "n" else None, reserved=kw.get("reserved"),
                          salt=kw["salt"], pfx=kw["pfx"], nets=kw["nets"], b4=kw["b4"], b6=kw["b6"])
         out = run([c])[0]
         if out.startswith("RAISED"):
@@ -37,9 +40,17 @@ def run(ctx):
             for ipflag in (["a"] if "a" not in sub else ["a", "u"]):
                 text = [l if l.endswith("\n") else l + "\n" for l, _ in c12.build_text(rng, 8)]
                 base = dict(salt=rng.choice(ipgen.SALTS), words=c12.WORDS, asnums=c12.ASNUMS, pfx=rng.choice(["-", "D", ipgen.net("10.0.0.0", 8)]), nets=rng.choice(["-", "P"]),
-                            b4=rng.choice([8, 0, 16]), b6=rng.choice([8, 0, 64]), ipflag=ipflag)
+                            b4=rng.choice([8, 0, 16]), b6=rng.choice([8, 0, 64]), ipflag=ipflag, reserved=rng.choice([None, RESERVED]))
+                if "a" in sub and "n" in sub and ipflag == "a":
+                    # AS numbers that are NOT in the input but appear once the IP stage has rewritten it
+                    o1 = vlib.run_impl([textgen.pipe(text, flags="a", salt=base["salt"], pfx=base["pfx"], nets=base["nets"], b4=base["b4"], b6=base["b6"])])[0]
+                    if not o1.startswith("RAISED"):
+                        before = {l[a:b] for l in text for a, b in linegen.digit_runs(l)}
+                        after = [o[a:b] for o in textgen.outlines(o1) for a, b in linegen.digit_runs(o) if o[a:b] not in before and len(o[a:b]) >= 2]
+                        if after:
+                            base["asnums"] = sorted(set(after))[:3] + c12.ASNUMS
                 flags = ("p" if "p" in sub else "") + (ipflag if "a" in sub else "")
-                cases.append(textgen.pipe(text, flags=flags, salt=base["salt"], words=c12.WORDS if "w" in sub else None, asnums=c12.ASNUMS if "n" in sub else None,
+                cases.append(textgen.pipe(text, flags=flags, salt=base["salt"], words=c12.WORDS if "w" in sub else None, asnums=base["asnums"] if "n" in sub else None, reserved=base["reserved"],
                                           pfx=base["pfx"], nets=base["nets"], b4=base["b4"], b6=base["b6"]))
                 metas.append((sub, base, text))
     m, i = ctx.correspond(cases, project=lambda c, o: textgen.norm(o), label="multi-feature")
